@@ -410,7 +410,7 @@ PROPS = {
                 "above 1 for 60 s is a leak), no 'fatal error' in its output; thorough adds a -race build where only race "
                 "reports with runtime map frames count. non-trivial = a hostile connection got past handshake and login (bubble) / sent more "
                 "than a handshake (net); distinct = hash(hostile descriptions) / hash(source, bytes)",
-        "assumptions": ["the hostile account lacks disconnect-user / delete-user / modify-user: an authorised administrator removing other users is not a containment failure",
+        "assumptions": ["the hostile account lacks delete-user / modify-user (removing other users' accounts with valid requests is not a containment failure); it may send disconnect requests, the well-behaved account cannot be disconnected",
                         "declared fork sizes <= 1 MiB (the property's bound)", "goroutine schedules are sampled"],
         "quick": {"runs": [{"test": "^TestC03$", "shards": 15, "checks": 100, "timeout": 900},
                            {"test": "^TestC03Net$", "shards": 1, "timeout": 900}]},
